@@ -16,7 +16,9 @@ def parents(p):
                 walk(h['body'], n, 'handler')
             if d['kind'] == 'def':
                 walk(p['fns'][d['f'] - 1]['body'], n, 'fn')
-    walk(p['fns'][0]['body'], 0, 'fn')
+    for f in p['fns']:
+        if f['parent'] == 0:          # the function under test and the module-level functions
+            walk(f['body'], 0, 'fn')
     return par
 
 
